@@ -1,4 +1,5 @@
 import StunVerif.Props.C04
+import StunVerif.Props.C04Seal
 #print axioms StunVerif.C04.key_def
 #print axioms StunVerif.C04.validate_spec
 #print axioms StunVerif.C04.missing
@@ -6,3 +7,4 @@ import StunVerif.Props.C04
 #print axioms StunVerif.C04.reported_present
 #print axioms StunVerif.C04.input_covers
 #print axioms StunVerif.C04.tamper_changes_hmac_triple
+#print axioms StunVerif.C04.seal_validates
